@@ -1347,13 +1347,15 @@ pub struct Pair<'b, T: El> {
     pub sv: Vec<T>,
     pub kept: Kept<'b, T>,
     pub sboxes: Vec<Box<[T]>>,
+    /// buffer size in bytes before the last op
+    pub last_cap_bytes: usize,
     pub ops: u64,
     pub panics: u64,
 }
 
 impl<'b, T: El> Pair<'b, T> {
     pub fn new(b: &'b Bump) -> Self {
-        Pair { b, bv: BVec::new_in(b), sv: Vec::new(), kept: Kept { slices: Vec::new(), boxes: Vec::new() }, sboxes: Vec::new(), ops: 0, panics: 0 }
+        Pair { b, bv: BVec::new_in(b), sv: Vec::new(), kept: Kept { slices: Vec::new(), boxes: Vec::new() }, sboxes: Vec::new(), last_cap_bytes: 0, ops: 0, panics: 0 }
     }
 
     pub fn run_op(&mut self, rep: &mut Report, op: &VOp, check_drops: bool) {
@@ -1376,6 +1378,9 @@ impl<'b, T: El> Pair<'b, T> {
         }
         let b = self.b;
         let before = (self.bv.as_ptr() as usize, self.bv.capacity(), self.bv.len());
+        if before.1 > 0 {
+            self.last_cap_bytes = before.1.saturating_mul(std::mem::size_of::<T>());
+        }
         let bv = &mut self.bv;
         let kept = &mut self.kept;
         let rb = catch_unwind(AssertUnwindSafe(|| apply_b::<T>(b, bv, op, kept)));
